@@ -221,7 +221,7 @@ def score_table_tasks(P):
         P.verify(f"{OR}:_get_score_table", name=f"_get_score_table[{mode}]", contract=c, extra_contracts=ex)
 
 
-def matching_module_tasks(P):
+def matching_module_tasks(P, direction=True):
     """_get_matching_module: each mode selects ITS matching class, and larger-is-better exactly for the two IoU modes (shared with C02)"""
     idx = P.index
     MM = idx.lookup(f"{OM}:MatchingMode")
@@ -229,8 +229,9 @@ def matching_module_tasks(P):
         cls = CLASSES[mode]
         P.verify(f"{OR}:_get_matching_module", name=f"_get_matching_module[{mode}]",
                  contract=Contract(f"{OR}:_get_matching_module", cut=False, params={"matching_mode": VEnum(MM, mi)},
-                                   ensures=E("the_matching_class_of_this_mode", f"result[0] is {cls}",
-                                             "larger_is_better_exactly_for_iou", f"result[1] == {mode.startswith('IOU')}")))
+                                   # which score is computed decides "within the radius" (C01); whether larger is better decides which pair wins (C02 only)
+                                   ensures=E("the_matching_class_of_this_mode", f"result[0] is {cls}") +
+                                           (E("larger_is_better_exactly_for_iou", f"result[1] == {mode.startswith('IOU')}") if direction else [])))
 
 
 def dispatch_tasks(P, c_main, extra):
@@ -330,7 +331,7 @@ def build(P):
     dispatch_tasks(P, c_main, extra)
     # ---------------------------------------------------------------- what the table cells mean: _get_score_table per matching class
     score_table_tasks(P)
-    matching_module_tasks(P)
+    matching_module_tasks(P, direction=False)
 
     P.trust("numpy score-table operations as assumed contracts (externals/nptable.py); tie-breaking of nanargmin/nanargmax unspecified")
     P.assume("the estimate list and the ground-truth list each contain pairwise distinct objects (the property's 'sets')")
